@@ -111,6 +111,32 @@ Definition gtransfer (res : option vresolver) (me phys clk : N) (sndr rcv : opti
       end
   end.
 
+(* RAW delivery: the revision handed straight to PutExistingCurrentVersion, without the CheckChangeVersion filter of
+   the changes / rev negotiation (the same BLIP rev arriving twice after both copies passed the negotiation) *)
+Definition gput (res : option vresolver) (me phys clk : N) (i l : vdoc) : option vdoc * gstatus * N :=
+  if unsendable i then (Some l, GError, clk)
+  else if d_del i && d_del l then (Some (adopt (d_hlv l) i), GApplied, clk)
+  else match is_in_conflict (d_hlv l) (d_hlv i) with
+       | AlreadyPresent => (Some l, GCancelled, clk)
+       | NoConflict => (Some (adopt (d_hlv l) i), GApplied, clk)
+       | Conflict =>
+           match res with
+           | None => (Some l, GConflict, clk)
+           | Some f =>
+               match f l i with
+               | VRemote => (Some (fresolve_remote_wins l i), GRemoteWins, clk)
+               | VLocal => (Some (fresolve_local_wins l i), GLocalWins, clk)
+               | VMerge mb =>
+                   let v := hlc_now phys clk (N.max (max_value_for_source (d_hlv l) me)
+                                                    (max_value_for_source (d_hlv i) me)) in
+                   match merge_with_incoming (d_hlv l) (me, v) (d_hlv i) with
+                   | Some h => (Some (merged_doc h mb l i), GMerged, v)
+                   | None => (Some l, GError, v)
+                   end
+               end
+           end
+       end.
+
 Definition gset (s : gsys) (p : N) (x : vpeer) : gsys := fun q => if q =? p then x else s q.
 
 Definition gstep_full (s : gsys) (o : gop) : gsys * gstatus :=
